@@ -28,6 +28,7 @@ from __future__ import annotations
 
 import ast
 import os
+import re
 import shutil
 import time
 from collections import Counter
@@ -76,6 +77,7 @@ class _Eval:
         self.harness: list[str] = []
         self.round = 0
         self.stub_samples: dict[str, str] = {}
+        self.exempt: list[str] = []
 
     # -- helpers
     def _owner(self, elems: list[G.Defn]) -> dict[str, str]:
@@ -86,6 +88,9 @@ class _Eval:
         return own
 
     def _find(self, elem: G.Defn | None, oracle: str, reason: str, raw: str, files: dict, stubs: dict) -> None:
+        if is_exempt(oracle, reason, raw):
+            self.exempt.append(f"{elem.id if elem else None}: {raw[:160]}")
+            return
         self.findings.append({
             "elem": elem.id if elem else None,
             "family": elem.family if elem else self.plan.family,
@@ -108,7 +113,7 @@ class _Eval:
             return
         plan, mode = self.plan, self.mode
         self.round += 1
-        work = scratch("c19", f"{self.tag}-{plan.name}-{mode}-r{self.round}")
+        work = scratch("c19", f"{self.tag}-{plan.name}-{mode}-{os.getpid()}-r{self.round}")
         src, out, cache = os.path.join(work, "src"), os.path.join(work, "out"), os.path.join(work, "cache")
         try:
             self._evaluate_in(elems, work, src, out, cache)
@@ -268,6 +273,8 @@ class _Eval:
                 obj, _, msg = ln.partition(" ")
                 module = next((m for m in modnames if obj == m or obj.startswith(m + ".")), None)
                 top = obj[len(module) + 1:].split(".")[0] if module and obj != module else None
+                if top and "@" in top:
+                    top = top.split("@")[0]  # mypy-internal names such as N@base1 belong to N
                 el = elem_of(module, top)
                 tgt = el or (elems[0] if single and elems else None)
                 self._find(tgt, "stubtest", O.normalise_reason(msg, modnames), ln, files, stubs)
@@ -288,7 +295,7 @@ class _Eval:
             for q, what in mism:
                 el = elem_of(module, q.split(".")[0])
                 tgt = el or (elems[0] if single and elems else None)
-                self._find(tgt, "structural", O.normalise_reason(what, modnames), f"{module}.{q}: {what}", files, stubs)
+                self._find(tgt, "structural", O.normalise_reason(what.split(" [`")[0], modnames), f"{module}.{q}: {what}", files, stubs)
                 if tgt is not None:
                     failing[tgt.id] = None
         self.passed += [e.id for e in elems if e.id not in failing]
@@ -307,6 +314,7 @@ def _run_plan_mode(job: dict) -> dict:
         "blocked": ev.blocked,
         "runs": ev.runs,
         "harness": ev.harness,
+        "exempt": ev.exempt,
         "stub_samples": ev.stub_samples,
         "secs": round(time.time() - t0, 1),
     }
@@ -315,8 +323,96 @@ def _run_plan_mode(job: dict) -> dict:
 # ----------------------------------------------------------------------------- signatures / isolation
 
 
-def signature(mode: str, family: str, oracle: str, reason: str) -> str:
+# Cause table: (mode re, family re, oracle, reason re, raw re | None, label re | None, cause, merge_families).
+# It only RENAMES/MERGES findings into cause-level signatures; a finding no row matches keeps the generic
+# signature mode|family|oracle|<normalised diagnostic>, so nothing is hidden by this table.
+CAUSES: list[tuple[str, str, str, str, str | None, str | None, str, bool]] = [
+    # ---- inspect mode (InspectionStubGenerator on pure-Python modules)
+    ("inspect", ".*", "stubgen", r"AttributeError: '[\w.]+' object has no attribute '__name__'", None, None,
+     "crash AttributeError: annotation object (X | Y, InitVar, P.args, ForwardRef) has no __name__", True),
+    ("inspect", ".*", "structural", r"annotation lost its type arguments$", None, None,
+     "subscripted annotation loses its type arguments", True),
+    ("inspect", ".*", "typecheck", r"^(Literal\[\.\.\.\] must have at least one parameter|Unpack\[\.\.\.\] requires exactly one|Annotated\[\.\.\.\] must have exactly)", None, None,
+     "special form (Literal/Unpack/Annotated) printed without its arguments", True),
+    ("inspect", ".*", "stubtest", r"should be positional-only", None, None, "positional-only marker `/` lost", True),
+    ("inspect", ".*", "stubtest", r'is an "async def" function at runtime', None, None, "async def rendered as def", True),
+    ("inspect", ".*", "typecheck", r'^Variable "X" is not valid as a type', None, None,
+     "TypeVar / alias object rendered as a plain variable and then used as a type", True),
+    ("inspect", ".*", "typecheck", r'^Name "typing\.<type parameter>" is not defined', None, None,
+     "PEP 695 type parameter printed as typing.<name>", True),
+    ("inspect", ".*", "typecheck", r'Name "(builtin_function_or_method|method_descriptor|wrapper_descriptor|dataclasses\._DataclassParams)" is not defined|module named "_abc"', None, None,
+     "type of a runtime value printed by a name that cannot be imported", True),
+    ("inspect", "enum|class", "typecheck", r"^(Enum members must be left unannotated|Cannot override final attribute|Detected enum)", None, None,
+     "enum members and Enum internals emitted as annotated ClassVars", True),
+    ("inspect", ".*", "structural", r"annotated class variable missing from stub", None, None,
+     "class-level annotation without a value is ignored", True),
+    ("inspect", "namedtuple", "stubtest", r"^is inconsistent", None, None,
+     "NamedTuple rendered as a plain tuple subclass with __init__(self, _cls, ...)", False),
+    ("inspect", "func-misc", "stubtest", r"^is inconsistent", None, "functools.wraps|contextmanager",
+     "decorated function: wrapper signature (*args, **kwargs) emitted instead of the wrapped one", False),
+    ("inspect", "overload", "structural", r"^(overload|property)", None, None,
+     "overloads are not seen: only the implementation's signature is emitted", False),
+    ("inspect", ".*", "structural", r"^property", None, None,
+     "property type is not taken from the getter's annotation", True),
+    ("inspect", ".*", "structural", r"^(class )?variable: annotation (changed|replaced by Incomplete)", None, None,
+     "variable annotation ignored: the type is derived from the runtime value", True),
+    ("inspect", "alias|generic", "structural", r"^(function|method): annotation changed", None, None,
+     "alias used in an annotation is replaced by its argument-less target", True),
+    ("inspect", "func|annotation", "structural", r"^function: annotation (dropped|replaced by Incomplete)", None, None,
+     "typing.Optional / typing.Union annotation dropped or replaced by Incomplete", True),
+    ("inspect", ".*", "structural", r"^annotated variable missing from stub", None, None,
+     "module attribute dropped: its value's __module__ names another module, so it is taken for an import", True),
+    ("inspect", "alias|var|import|generic|cond", "stubtest", r"^is not present in stub", None, None,
+     "module attribute dropped: its value's __module__ names another module, so it is taken for an import", True),
+    ("inspect", ".*", "typecheck", r'^(Module "X" has no attribute "X"|Cannot find implementation or library stub for module named "X"|Name "X" already defined \(possibly by an import\))', None, None,
+     "imports rebuilt from __module__/__name__ of values: aliases, instances and nested classes become imports of names that do not exist", True),
+    # ---- AST modes
+    ("parse|default", "alias", "stubtest", r"runtime is not a type|is not a Union|is not a type alias for Callable", None, "^type statement",
+     "stubtest does not understand the TypeAliasType object of a PEP 695 `type` statement", False),
+    ("parse|default", "enum", "stubtest", r"^is inconsistent", "__new__", "str mixin",
+     "str-mixin Enum: stubtest compares typeshed str.__new__ with the runtime Enum.__new__", False),
+    ("parse|default", ".*", "stubtest", r"^is inconsistent", r"__class_getitem__", None,
+     "generic NamedTuple: stubtest compares typeshed tuple.__class_getitem__ with Generic.__class_getitem__", True),
+    ("parse|default", ".*", "stubtest", r"is not present in stub", r"__type_params__", None,
+     "stubtest reports __type_params__ of a PEP 695 class as missing from the stub", True),
+    ("parse|default", ".*", "stubtest", r"is not present at runtime", r"@base\d* is not present", None,
+     "stubtest reports mypy's internal NamedTuple base class `N@base1`", True),
+    ("parse|default", "dataclass", "stubtest", r"is not present at runtime", r"\._DT is not present", None,
+     "stubtest reports the plugin-generated `_DT` of an order=True dataclass", False),
+    ("parse", "enum|class", "typecheck", r"^(Detected enum|Parameter N of Literal|Variable \"X\" is not valid as a type)", None, None,
+     "parse-only renders enum members as annotations (`A: int`), leaving the enum without members", True),
+    ("parse", "cond|class", "typecheck", r"already defined on line N|Cannot assign multiple types to name", None, None,
+     "parse-only emits the definitions of every if/else branch (duplicate class / method / alias)", True),
+    ("parse", "cond", "stubtest", r"^is inconsistent", None, None,
+     "parse-only keeps the first if/else branch of a function even when it is unreachable", False),
+]
+_CAUSES = [(re.compile(m), re.compile(f), o, re.compile(r), re.compile(w) if w else None, re.compile(lb) if lb else None, c, mg)
+           for m, f, o, r, w, lb, c, mg in CAUSES]
+
+# Disagreements that are not stubgen's (nor stubtest's) doing: the element is taken out of the module like
+# any culprit, counted in coverage["exempt"], and not reported.
+EXEMPT: list[tuple[str, str, str, str]] = [
+    ("typecheck", r"module named \"X\" \[import-not-found\]", r"nonexistent_c19_mod",
+     "the SOURCE imports a module that does not exist (optional-dependency pattern); mypy reports the same "
+     "import-not-found on the source, the stub merely repeats the import"),
+]
+_EXEMPT = [(o, re.compile(r), re.compile(w), why) for o, r, w, why in EXEMPT]
+
+
+def is_exempt(oracle: str, reason: str, raw: str) -> bool:
+    return any(o == oracle and r.search(reason) and w.search(raw) for o, r, w, _ in _EXEMPT)
+
+
+def signature(mode: str, family: str, oracle: str, reason: str, raw: str = "", label: str = "") -> str:
+    for m, f, o, r, w, lb, cause, merge in _CAUSES:
+        if o == oracle and m.fullmatch(mode) and f.fullmatch(family) and r.search(reason) \
+                and (w is None or w.search(raw)) and (lb is None or lb.search(label)):
+            return f"{mode}|{'*' if merge else family}|{oracle}|{cause}"
     return f"{mode}|{family}|{oracle}|{reason}"
+
+
+def _sig(mode: str, f: dict) -> str:
+    return signature(mode, f["family"], f["oracle"], f["reason"], f["raw"], f["label"])
 
 
 def _singleton(plan: G.Plan, elem: G.Defn) -> G.Plan:
@@ -331,8 +427,8 @@ def _confirm(job: dict) -> dict:
     ev = _Eval(plan, job["mode"], job["warm"], job.get("tag", "c"))
     # keep the stubs of this single run for the report
     ev.run()
-    sigs = sorted({signature(job["mode"], f["family"], f["oracle"], f["reason"]) for f in ev.findings})
-    raws = {signature(job["mode"], f["family"], f["oracle"], f["reason"]): f["raw"] for f in reversed(ev.findings)}
+    sigs = sorted({_sig(job["mode"], f) for f in ev.findings})
+    raws = {_sig(job["mode"], f): f["raw"] for f in reversed(ev.findings)}
     return {"sigs": sigs, "raws": raws, "stub": next(iter(ev.stub_samples.values()), ""), "harness": ev.harness}
 
 
@@ -358,6 +454,7 @@ def run(ctx: Ctx) -> Result:
     evaluated = Counter()
     runs = 0
     stub_samples: dict[str, str] = {}
+    exempt: list[str] = []
     per_family = Counter()
     for p in plans:
         per_family[p.family] += len(p.elems)
@@ -367,6 +464,7 @@ def run(ctx: Ctx) -> Result:
             continue
         runs += val["runs"]
         harness += val["harness"]
+        exempt += val["exempt"]
         passed[val["mode"]] += len(val["passed"])
         blocked[val["mode"]] += len(set(val["blocked"]))
         evaluated[val["mode"]] += len(set(val["passed"])) + len({f["elem"] for f in val["findings"] if f["elem"]} | set(val["blocked"]))
@@ -377,11 +475,16 @@ def run(ctx: Ctx) -> Result:
         if val["mode"] == "default":
             stub_samples.update(val["stub_samples"])
     log(f"C19 batch phase: {runs} stubgen runs, {len(findings)} raw findings, {time.time() - t0:.1f}s")
+    if os.environ.get("C19_DUMP"):
+        import json
+
+        with open(os.environ["C19_DUMP"], "w") as fh:
+            json.dump(findings, fh, indent=1)
 
     # group by signature; simplest (lowest element id) first
     by_sig: dict[str, list[dict]] = {}
     for f in findings:
-        by_sig.setdefault(signature(f["mode"], f["family"], f["oracle"], f["reason"]), []).append(f)
+        by_sig.setdefault(_sig(f["mode"], f), []).append(f)
     for fl in by_sig.values():
         fl.sort(key=lambda f: (f["elem"] or "~", f["plan"]))
 
@@ -453,6 +556,9 @@ def run(ctx: Ctx) -> Result:
         "pairs_with_findings": distinct_failing,
         "pairs_not_reaching_stubtest": dict(blocked),
         "raw_findings": len(findings),
+        "exempt": len(exempt),
+        "exempt_rules": [f"{o}: /{r}/ & /{w}/ -- {why}" for o, r, w, why in EXEMPT],
+        "exempt_samples": exempt[:4],
         "distinct_signatures": len(by_sig),
         "signatures_reproduced_in_isolation": isolated_ok,
         "findings_per_oracle": dict(Counter(f["oracle"] for f in findings)),
@@ -487,7 +593,7 @@ def replay(ctx: Ctx, rec: dict) -> Result:
     print(f"--- stubgen {' '.join(G.MODE_FLAGS[d['mode']])} -> stub\n{next(iter(ev.stub_samples.values()), '')}")
     viol = []
     for f in ev.findings:
-        sig = signature(d["mode"], f["family"], f["oracle"], f["reason"])
+        sig = _sig(d["mode"], f)
         print(f"[{f['oracle']}] {f['raw']}")
         if sig == rec["signature"]:
             viol.append(Violation(sig, f["raw"], d))
